@@ -223,6 +223,50 @@ Definition empty_frame (c : nat) : frame := {| macros := []; lets := []; cats :=
 Definition init_state : state :=
   {| ups := []; bottom := empty_frame 0; heap := [default_table]; cur := 0; m_cells := [] |}.
 
+(* ---- \begin{x} / \end{x} (Base/LaTeX/Environments.py begin.invoke / end.invoke) ----
+   obj = self.ownerDocument.createElement(name)      createElement = context[name]() : a fresh instance of the class that
+   obj.macroMode = MODE_BEGIN / MODE_END               name means *now* (an unknown name is defined as unrecognized first)
+   obj.parentNode = self.parentNode                    (None while the token stream is being expanded)
+   obj.invoke(tex)
+   and invoke is, depending on the class of the name:
+     Environment.invoke   begin: context.push(self); self.parse(tex)        end: context.pop(self)
+     Macro.invoke         MODE_BEGIN branch: context.push(self); parse      MODE_END branch: context.pop(self)
+                          (Command classes used as environments - sloppypar ...; UnrecognizedMacro is a Macro)
+     NewCommand.invoke    (\newenvironment) begin: arguments, BeginGroup token, begin code -> bgroup.invoke: push()
+                          end: end code of \endx, EndGroup token -> egroup.invoke: pop()
+   The type of the instance is the class, i.e. the value the lookup returns. *)
+Inductive ckind := CEnvironment | CMacro | CNewCommand.
+Definition val_code (v : value) : N := match v with VDef i => 2 * i | VUnrec k => 2 * k + 1 end.
+Definition instance (v : value) (i mode : N) (nm : list N) (locs : list (name * value)) : objinfo :=
+  {| oid := i; otype := val_code v; omode := mode; oname := nm; oparent := None; odoc := false; olocals := locs |}.
+Definition begin_env (x : name) (ck : ckind) (i : N) (nm : list N) (locs : list (name * value)) (s : state) : state :=
+  let (s1, v) := getitem x s in
+  match ck with
+  | CEnvironment => push (Some (instance v i 1 nm locs)) s1
+  | CMacro => push (Some (instance v i 1 nm locs)) s1
+  | CNewCommand => push None s1
+  end.
+Definition end_env (x : name) (ck : ckind) (i : N) (nm : list N) (s : state) : state :=
+  let (s1, v) := getitem x s in
+  match ck with
+  | CEnvironment => pop (Some (instance v i 2 nm [])) s1
+  | CMacro => pop (Some (instance v i 2 nm [])) s1
+  | CNewCommand => pop None s1
+  end.
+
+(* what the driver runs: context operations, and \begin / \end of a name *)
+Inductive xop :=
+| XOp (o : op)
+| XBegin (x : name) (ck : ckind) (i : N) (nm : list N) (locs : list (name * value))
+| XEnd (x : name) (ck : ckind) (i : N) (nm : list N).
+Definition xstep (o : xop) (s : state) : state :=
+  match o with
+  | XOp o => step o s
+  | XBegin x ck i nm locs => begin_env x ck i nm locs s
+  | XEnd x ck i nm => end_env x ck i nm s
+  end.
+Definition xraises (o : xop) : bool := match o with XOp o => raises o | _ => false end.
+
 (* ---- observations and wire format ---- *)
 Definition val_z (v : option value) : Z :=
   match v with None => -1 | Some (VDef i) => 2 * Z.of_N i | Some (VUnrec k) => 2 * Z.of_N k + 1 end%Z.
@@ -248,11 +292,11 @@ Definition observe (p : probes) (full : bool) (crashed : bool) (s : state) : val
        ++ (if full then [VL (map (obs_frame s p) (ups s ++ [bottom s]))] else []) ).
 
 (* dump = dump the frames after every operation; otherwise only after the last one *)
-Fixpoint run_obs (p : probes) (dump : bool) (h : list op) (s : state) : list val :=
+Fixpoint run_obs (p : probes) (dump : bool) (h : list xop) (s : state) : list val :=
   match h with
   | [] => []
-  | o :: r => let s' := step o s in
-              observe p (dump || match r with [] => true | _ => false end) (raises o) s' :: run_obs p dump r s'
+  | o :: r => let s' := xstep o s in
+              observe p (dump || match r with [] => true | _ => false end) (xraises o) s' :: run_obs p dump r s'
   end.
 
 Definition value_of (v : val) : option value :=
@@ -307,6 +351,24 @@ Definition op_of (v : val) : option op :=
   | _ => None
   end.
 
+Definition ckind_of (z : Z) : option ckind :=
+  match z with 0%Z => Some CEnvironment | 1%Z => Some CMacro | 2%Z => Some CNewCommand | _ => None end.
+Definition xop_of (v : val) : option xop :=
+  match v with
+  | VL [VI 14; x; VI ck; i; nm; VL locs] =>
+      match getN x, ckind_of ck, getN i, getNs nm, mapM binding_of locs with
+      | Some x, Some ck, Some i, Some nm, Some locs => Some (XBegin x ck i nm locs)
+      | _, _, _, _, _ => None
+      end
+  | VL [VI 15; x; VI ck; i; nm] =>
+      match getN x, ckind_of ck, getN i, getNs nm with
+      | Some x, Some ck, Some i, Some nm => Some (XEnd x ck i nm)
+      | _, _, _, _ => None
+      end
+  | _ => match op_of v with Some o => Some (XOp o) | None => None end
+  end.
+Definition xrun (h : list xop) (s : state) : state := fold_left (fun s o => xstep o s) h s.
+
 (* case: ((names) (chars) (cells)) (op ...) dump (fan ...)
    ->  (obs0 obs1 ... obsN f1 ... fM): the observation of the initial state, one observation after each
    operation (with the frame dump after the last one, or after each if dump), and for every operation of the fan the
@@ -314,13 +376,13 @@ Definition op_of (v : val) : option op :=
 Definition run_case (v : val) : val :=
   match v with
   | VL [VL [ns; cs; ces]; VL ops; VI dump; VL fan] =>
-      match getNs ns, getNs cs, getNs ces, mapM op_of ops, mapM op_of fan with
+      match getNs ns, getNs cs, getNs ces, mapM xop_of ops, mapM xop_of fan with
       | Some ns, Some cs, Some ces, Some ops, Some fan =>
           let p := {| p_names := ns; p_chars := cs; p_cells := ces |} in
           let d := negb (Z.eqb dump 0) in
-          let s := run ops init_state in
+          let s := xrun ops init_state in
           VL (observe p true false init_state :: run_obs p d ops init_state
-              ++ map (fun o => observe p false (raises o) (step o s)) fan)
+              ++ map (fun o => observe p false (xraises o) (xstep o s)) fan)
       | _, _, _, _, _ => v_bad_input
       end
   | _ => v_bad_input
